@@ -509,6 +509,28 @@ pub fn c01(ctx: &mut Ctx) {
     }
     run(ctx, bytes::fci_raw_space(), Mode::FciOnly, false);
     run(ctx, bytes::giants_space(), Mode::Giant, false);
+    // iterator call histories ("all accessor/iterator call sequences"): every iterator reachable from the base set
+    // and from every well-tiled datagram of 1..=3 menu tiles is driven through every sequence of next / nth /
+    // take-count calls up to a depth and every ending (collect / count / last / nth(remaining))
+    {
+        let depth = ctx.tier.pick(3u32, 4u32);
+        ctx.bound("iterator histories", format!("every iterator of every packet of the base set W and of every 1..=3-tile datagram of the tile menu: all call sequences of length <= {} over {{next, nth(0), nth(1), nth(2), nth(7), take(2).count()}} x 4 endings", depth));
+        let b3 = bases.clone();
+        ctx.run_space("W-iterator-histories", nb, move |idx, l| {
+            l.evals += 1;
+            l.sample(|| format!("iterator histories on {}", hex_short(&b3[idx as usize])));
+            super::common::all_iterator_histories(l, &b3[idx as usize], depth);
+        });
+        let sp = bytes::tile_seq_space(3);
+        let get = &sp.get;
+        ctx.run_space("tile-sequence-iterator-histories", sp.len, |idx, l| {
+            let mut buf = Vec::with_capacity(48);
+            get(idx, &mut buf);
+            l.evals += 1;
+            l.sample(|| format!("iterator histories on {}", hex_short(&buf)));
+            super::common::all_iterator_histories(l, &buf, depth);
+        });
+    }
     ctx.require_hit("accepted by at least one entry point");
     ctx.require_hit("rejected by every entry point");
 }
